@@ -12,8 +12,15 @@ TEXTS = {
              "Spec.Step for every specification, state, pending message and action/guard behaviour (C04_step_follows_rule, "
              "C04_rule_determines_step, ordered branches, guard protocol, consumption). The correspondence run compares the model "
              "with Spec.Step (To, consumed message, error class) on every generated case, so a deviation of the code from the rule "
-             "is reported with the failing (spec, state, message).",
-        note=ENGINE_NOTE + " A step whose guard saw several candidates with different outcomes is not compared (the choice is documented as arbitrary)."),
+             "is reported with the failing (spec, state, message). Which of several acceptable candidates of one guarded branch is "
+             "chosen depends on the order in which Go's matcher lists them; the model's account of all those behaviours is an "
+             "instrumented step parameterised by a candidate order that also returns the guard calls it makes (Spec/GuardLog.v: "
+             "C04_step_logged_erases, C04_unambiguous_step_order_free). Every compiled guard of the generated specifications is wrapped "
+             "in a logger, and each step is replayed in the model under the order the implementation used (Corr/StepCorr.v "
+             "replay_agrees: same calls, same verdicts, same result) - no step is skipped; the protocol oracle glog_ok is proved sound "
+             "for every order and shown to reject what the plain comparison cannot see (C04_guard_log_oracle_sound, "
+             "C04_guard_log_oracle_discriminates).",
+        note=ENGINE_NOTE + " A step whose guard calls could not be recorded (it hung or panicked) is judged by the plain comparison only."),
     "C05": dict(
         text="All clauses of walk accounting are proved for the model of Spec.Walk, for every specification (cyclic ones included), "
              "action behaviour, breakpoint predicate, limit, state and non-null message list: ordered exactly-once consumption, step "
